@@ -264,6 +264,24 @@ Definition parse_domain (origin : option dname) (s : list N) : res zerr dname :=
          | None => Err ExpectedOrigin
          end.
 
+(* the tail of parse_domain_or_wildcard's last branch (fix 0286676): an owner whose leftmost label
+   is "*" is a wildcard however it was written (e.g. "@" under "$ORIGIN *.example.com."):
+     if name.labels.len() > 1 && name.labels[0].octets().as_ref() == b"*" {
+         if let Some(parent) = DomainName::from_labels(name.labels[1..].into()) {
+             return Ok(MaybeWildcard::Wildcard { name: parent }); } }
+     Ok(MaybeWildcard::Normal { name }) *)
+Definition normal_or_star (name : dname) : res zerr mwild :=
+  let* star :=
+     (if len_ge 2 (labels name) then let* l0 := idx (labels name) 0 in Ok (leqb l0 S_STAR)
+      else Ok false) in
+  if star then
+    let* tl := slice_from (labels name) 1 in
+    match from_labels tl with
+    | Some parent => Ok (MWildcard parent)
+    | None => Ok (MNormal name)
+    end
+  else Ok (MNormal name).
+
 (* parse_domain_or_wildcard *)
 Definition parse_domain_or_wildcard (origin : option dname) (s : list N) : res zerr mwild :=
   if is_nil s then Err ExpectedDomainName
@@ -281,7 +299,7 @@ Definition parse_domain_or_wildcard (origin : option dname) (s : list N) : res z
       Ok (MWildcard name)
     else
       let* name := parse_domain origin s in
-      Ok (MNormal name).
+      normal_or_star name.
 
 (* RecordType::from_str, as the u16 code (WireTypes represents record types by their code;
    "TYPE<n>" yields RecordType::from(n), which is a known type when n is a known code) *)
